@@ -192,7 +192,7 @@ def build_units_probes(b):
 # on 8 shards and a thorough one for roughly 5-12 min on 16 shards (bounded by case count, never by a clock)
 TIER_SCALE = {
     'C01': (6, 6), 'C02': (10, 12), 'C03': (20, 20), 'C04': (3, 3), 'C05': (1.5, 2), 'C06': (5, 5), 'C07': (15, 15), 'C08': (10, 10),
-    'C09': (2.5, 3), 'C10': (2, 3), 'C11': (8, 8), 'C12': (1.5, 2), 'C13': (1, 1), 'C14': (1, 1), 'C15': (0.7, 1), 'C16': (5, 8),
+    'C09': (2.5, 1), 'C10': (2, 3), 'C11': (8, 8), 'C12': (1.5, 2), 'C13': (1, 1), 'C14': (1, 1), 'C15': (0.7, 1), 'C16': (5, 8),
     'C17': (8, 10), 'C18': (1, 1), 'C19': (8, 8), 'C20': (20, 20),
 }
 
